@@ -82,39 +82,51 @@ def directed_family(quick):
         # left snake on wire a:  Id(a) @ Cap(ar, a)  >> obstructions >> Cup(a, ar) @ Id(a)
         # right snake on wire a: Cap(a, al) @ Id(a) >> obstructions >> Id(a) @ Cup(al, a)
         for left_snake in (True, False):
-            for nl, nr in itertools.product(range(0, 3 if not quick else 2), repeat=2):
-                for shapes in itertools.product(obst, repeat=nl + nr):
-                    for order in set(itertools.permutations(["L"] * nl + ["R"] * nr)):
-                        r = _snake_recipe(a, ar, al, left_snake, order, shapes)
-                        if r is not None:
-                            out.append(r)
+            top = 3 if not quick else 3
+            for nl, nr in itertools.product(range(0, top), repeat=2):
+                # all four arity shapes for up to 2 obstructions; for 3-4 obstructions the two
+                # shapes that matter for index bookkeeping (a 1->1 box and a scalar)
+                menu = obst if nl + nr <= 2 else [(1, 1), (0, 0)]
+                if not quick and nl + nr == 3:
+                    menu = obst
+                for shapes in itertools.product(menu, repeat=nl + nr):
+                    for order in sorted(set(itertools.permutations(["L"] * nl + ["R"] * nr))):
+                        for inner in ((False, True) if nl + nr else (False,)):
+                            r = _snake_recipe(a, ar, al, left_snake, order, shapes, inner)
+                            if r is not None:
+                                out.append(r)
     return out
 
 
-def _snake_recipe(a, ar, al, left_snake, order, shapes):
-    """dom = left context (x) a (x) right context with one wire each side available for
-    obstructions; obstruction boxes act on the context wire to the left of the snake or to the
-    right of it, between the cap and the cup."""
+def _snake_recipe(a, ar, al, left_snake, order, shapes, inner=False):
+    """dom = lw (x) a (x) rw.  A cap is opened next to the wire a, obstruction boxes act between
+    the cap and the cup, then the cup closes the snake.  Obstructions act on the outer context
+    wire of their side; with inner=True the obstructions of the side where the cap's *free* leg
+    lies act on that free leg instead (a box sitting on the snake's own outgoing wire)."""
     lw, rw = "n", "n"
     dom = (lw, a, rw)
     layers = []
-    cur = list(dom)
     if left_snake:
-        layers.append((("cap", ar, a), 2))       # lw a | ar a | rw
-        cur = [lw, a, ar, a, rw]
-        snake = (1, 4)                             # wires [1..3] belong to the snake
+        layers.append((("cap", ar, a), 2))       # lw a | ar a | rw   (free leg: a, right side)
+        free = [a]
     else:
-        layers.append((("cap", a, al), 1))       # lw | a al | a rw
-        cur = [lw, a, al, a, rw]
-        snake = (1, 4)
+        layers.append((("cap", a, al), 1))       # lw | a al | a rw   (free leg: a, left side)
+        free = [a]
     left_ctx, right_ctx = [lw], [rw]
     t = 0
     for side, (i, o) in zip(order, shapes):
+        on_free = inner and ((side == "R") == left_snake)
+        name = "o%s%d%d@%d" % (side, i, o, t)
+        t += 1
+        if on_free:
+            if i != 1 or o != 1:
+                return None            # the free leg must survive with its type: only 1 -> 1 boxes
+            off = len(left_ctx) + (2 if left_snake else 0)
+            layers.append((("box", name, (free[0],), (free[0],)), off))
+            continue
         ctx = left_ctx if side == "L" else right_ctx
         if i > len(ctx):
             return None
-        name = "o%s%d%d@%d" % (side, i, o, t)
-        t += 1
         if side == "L":
             off = len(left_ctx) - i
             spec = ("box", name, tuple(left_ctx[off:off + i]), ("n",) * o)
@@ -232,7 +244,9 @@ def check_normalize(params):
         out.append((_sig(kind, params), "normalize(left=%s) of %s: %s" % (left, d, msg)))
     connected = ref.box_graph_connected(m0)
     w0 = ref.wiring(m0, transparent)
-    mats = {dim: matrix_of(d, dim) for dim in (2, 3)} if params.get("matrices", True) else {}
+    width = max(len(t) for t in ref.m_types(m0))
+    mats = {dim: matrix_of(d, dim) for dim in ((2, 3) if width <= 4 else (2,))} \
+        if params.get("matrices", True) else {}
     trace, seen, status = [], {ref.diagram_key(d)}, "done"
     try:
         for step in d.normalize(left=left):
@@ -282,7 +296,9 @@ def check_normalize(params):
         if ref.wiring(sm, transparent) != w0:
             bad("step-wiring", "step %d = %s has a different wiring graph than the input" % (t, step))
             return out
-        for dim, m_in in mats.items():
+        # second, numeric witness: on every snake removal and on the last step (the wiring graph
+        # above is the complete oracle and is checked on every step)
+        for dim, m_in in (mats.items() if (len(sm[1]) != len(pm[1]) or t == len(trace) - 1) else ()):
             ms = matrix_of(step, dim)
             if ms.shape != m_in.shape or not np.array_equal(ms, m_in):
                 bad("step-semantics", "step %d = %s denotes a different matrix (dim %d)" % (t, step, dim))
